@@ -340,31 +340,7 @@ func (a *Aggregator) run() {
 				a.reCacheMutex.Unlock()
 			}
 		case <-a.snapReq:
-			aggsCopy := make(map[uint]*aggregation)
-			for quant, aggReal := range a.aggregations {
-				stateCopy := make(map[string]Processor)
-				for key := range aggReal.state {
-					stateCopy[key] = nil
-				}
-				aggsCopy[quant] = &aggregation{
-					state: stateCopy,
-					count: aggReal.count,
-				}
-			}
-			s := &Aggregator{
-				Fun:          a.Fun,
-				procConstr:   a.procConstr,
-				Matcher:      a.Matcher,
-				OutFmt:       a.OutFmt,
-				Cache:        a.Cache,
-				Interval:     a.Interval,
-				Wait:         a.Wait,
-				DropRaw:      a.DropRaw,
-				aggregations: aggsCopy,
-				now:          time.Now,
-				Key:          a.Key,
-			}
-			a.snapResp <- s
+			a.snapResp <- a.snapshot()
 		case <-a.shutdown:
 			thresh := a.now().Add(-time.Duration(a.Wait) * time.Second)
 			a.Flush(uint(thresh.Unix()))
@@ -375,8 +351,43 @@ func (a *Aggregator) run() {
 	}
 }
 
+// snapshot copies the state of the aggregator. only to be called by run(), or after run() has returned
+func (a *Aggregator) snapshot() *Aggregator {
+	aggsCopy := make(map[uint]*aggregation)
+	for quant, aggReal := range a.aggregations {
+		stateCopy := make(map[string]Processor)
+		for key := range aggReal.state {
+			stateCopy[key] = nil
+		}
+		aggsCopy[quant] = &aggregation{
+			state: stateCopy,
+			count: aggReal.count,
+		}
+	}
+	return &Aggregator{
+		Fun:          a.Fun,
+		procConstr:   a.procConstr,
+		Matcher:      a.Matcher,
+		OutFmt:       a.OutFmt,
+		Cache:        a.Cache,
+		Interval:     a.Interval,
+		Wait:         a.Wait,
+		DropRaw:      a.DropRaw,
+		aggregations: aggsCopy,
+		now:          time.Now,
+		Key:          a.Key,
+	}
+}
+
 // to view the state of the aggregator at any point in time
 func (a *Aggregator) Snapshot() *Aggregator {
-	a.snapReq <- true
-	return <-a.snapResp
+	select {
+	case a.snapReq <- true:
+		return <-a.snapResp
+	case <-a.shutdown:
+		// the aggregator was shut down (deleted from the table) while the caller was still looking at it:
+		// nobody serves snapshot requests anymore. wait for run() to be gone and read the final state directly
+		a.wg.Wait()
+		return a.snapshot()
+	}
 }
